@@ -230,6 +230,12 @@ pub(crate) fn verif_get_var_name(var_id: usize) -> String {
     get_var_name(var_id)
 }
 
+#[cfg(glass_easel_verif)]
+pub(crate) fn verif_next_var_name(mut id_inc: usize) -> (String, usize) {
+    let name = next_var_name(&mut id_inc);
+    (name, id_inc)
+}
+
 impl<'a, W: fmt::Write> JsFunctionScopeWriter<'a, W> {
     fn get_block(&self) -> &JsBlockStat {
         if self.block.is_some() {
